@@ -520,38 +520,75 @@ type SpecDef struct {
 	Deps   []string
 }
 
-var specHeapCache = map[*SpecFunc][]*Term{}
-var specHeapInProgress = map[*SpecFunc]bool{}
+var specBroken = map[*SpecFunc]string{}
+var specHeapCache map[*SpecFunc][]*Term
+var specHeapCur map[*SpecFunc]map[string]*Term
 
 // specHeapParams: the heap fields a spec function reads (transitively), as global constants in name order.
+// Computed once for all spec functions as a least fixpoint (mutually recursive definitions included).
 func (w *World) specHeapParams(sf *SpecFunc) []*Term {
-	if hp, ok := specHeapCache[sf]; ok {
+	if specHeapCache != nil {
+		return specHeapCache[sf]
+	}
+	if specHeapCur != nil {
+		// inside the fixpoint computation: current approximation
+		var hp []*Term
+		for _, k := range sortedKeys(specHeapCur[sf]) {
+			hp = append(hp, specHeapCur[sf][k])
+		}
 		return hp
 	}
-	if specHeapInProgress[sf] || sf.Body == nil {
-		return nil
-	}
-	specHeapInProgress[sf] = true
-	defer delete(specHeapInProgress, sf)
-	seen := map[string]*Term{}
-	names := map[string]*Val{}
-	for _, p := range sf.Params {
-		s, gt := w.resolveSpecType(sf.Pkg, p.Type)
-		names[p.Name] = tv(cnst(p.Name+"$", s), gt)
+	specHeapCur = map[*SpecFunc]map[string]*Term{}
+	var all []*SpecFunc
+	for _, k := range sortedKeys(w.CS.Specs) {
+		f := w.CS.Specs[k]
+		specHeapCur[f] = map[string]*Term{}
+		if f.Body != nil {
+			all = append(all, f)
+		}
 	}
 	saved := bvCounter
-	env := &SpecEnv{names: names, pkg: sf.Pkg, w: w, heapOf: func(g *Term) *Term {
-		seen[g.Op] = g
-		return cnst(g.Op+"$", g.S)
-	}}
-	w.trSpec(sf.Body, env)
-	bvCounter = saved
-	var hp []*Term
-	for _, k := range sortedKeys(seen) {
-		hp = append(hp, seen[k])
+	for changed := true; changed; {
+		changed = false
+		for _, f := range all {
+			names := map[string]*Val{}
+			for _, p := range f.Params {
+				s, gt := w.resolveSpecType(f.Pkg, p.Type)
+				names[p.Name] = tv(cnst(p.Name+"$", s), gt)
+			}
+			cur := specHeapCur[f]
+			n0 := len(cur)
+			env := &SpecEnv{names: names, pkg: f.Pkg, w: w, heapOf: func(g *Term) *Term {
+				name := strings.TrimSuffix(g.Op, "$")
+				cur[name] = cnst(name, g.S)
+				return cnst(name+"$", g.S)
+			}}
+			func() {
+				defer func() {
+					if r := recover(); r != nil {
+						// a broken spec function must not poison the others: it is reported when it is used
+						specBroken[f] = fmt.Sprint(r)
+					}
+				}()
+				w.trSpec(f.Body, env)
+			}()
+			if len(cur) != n0 {
+				changed = true
+			}
+		}
 	}
-	specHeapCache[sf] = hp
-	return hp
+	bvCounter = saved
+	cache := map[*SpecFunc][]*Term{}
+	for f, m := range specHeapCur {
+		var hp []*Term
+		for _, k := range sortedKeys(m) {
+			hp = append(hp, m[k])
+		}
+		cache[f] = hp
+	}
+	specHeapCache = cache
+	specHeapCur = nil
+	return specHeapCache[sf]
 }
 
 func (w *World) specDef(sf *SpecFunc) *SpecDef {
